@@ -617,6 +617,84 @@ func (se *specEnv) call(n *ast.CallExpr) specVal {
 				return specVal{V: v, T: untypedInt}
 			}
 			se.fail("ref() of %s", exprString(n.Args[0]))
+		case "word":
+			// word(b, pos): the little-endian 64-bit word stored in b[pos:pos+8], as an
+			// uninterpreted function of its eight bytes (T-std: encoding/binary)
+			a := se.eval(n.Args[0])
+			sv, ok := se.rval(a).(*SliceV)
+			if !ok {
+				se.fail("word() needs a byte slice")
+			}
+			pos := se.evalInt(n.Args[1])
+			return specVal{V: se.x.wordAt(se.st, sv, pos, 8), T: types.Typ[types.Uint64]}
+		case "wordat":
+			// wordat(b, p): the 64-bit word at ABSOLUTE position p of b's backing array
+			a := se.eval(n.Args[0])
+			sv, ok := se.rval(a).(*SliceV)
+			if !ok {
+				se.fail("wordat() needs a byte slice")
+			}
+			pos := se.evalInt(n.Args[1])
+			return specVal{V: se.x.wordAt(se.st, &SliceV{Arr: sv.Arr, Off: Zero, Len: sv.Len, Cap: sv.Cap}, pos, 8), T: types.Typ[types.Uint64]}
+		case "word32":
+			a := se.eval(n.Args[0])
+			sv, ok := se.rval(a).(*SliceV)
+			if !ok {
+				se.fail("word32() needs a byte slice")
+			}
+			pos := se.evalInt(n.Args[1])
+			return specVal{V: se.x.wordAt(se.st, sv, pos, 4), T: types.Typ[types.Uint32]}
+		case "gword":
+			// gword(a, p): 64-bit word stored at absolute positions p..p+7 of a ghost byte array
+			arr, ok := se.rval(se.eval(n.Args[0])).(Term)
+			if !ok {
+				se.fail("gword() needs a ghost array")
+			}
+			pos := se.evalInt(n.Args[1])
+			return specVal{V: se.x.wordOf(arr, pos, 8), T: types.Typ[types.Uint64]}
+		case "base":
+			// absolute index of the slice's first element in its backing array
+			sv, ok := se.rval(se.eval(n.Args[0])).(*SliceV)
+			if !ok {
+				se.fail("base() needs a slice")
+			}
+			return specVal{V: sv.Off, T: untypedInt}
+		case "raw":
+			// raw(s, p): element at absolute index p of the slice's backing array
+			a := se.eval(n.Args[0])
+			sv, ok := se.rval(a).(*SliceV)
+			if !ok {
+				se.fail("raw() needs a slice")
+			}
+			et := a.T.Underlying().(*types.Slice).Elem()
+			p := se.evalInt(n.Args[1])
+			return specVal{Addr: &PtrV{Obj: sv.Arr, Elem: true, Idx: p, Root: et}, T: et}
+		case "arrof":
+			sv, ok := se.rval(se.eval(n.Args[0])).(*SliceV)
+			if !ok {
+				se.fail("arrof() needs a slice")
+			}
+			return specVal{V: sv.Arr, T: untypedInt}
+		case "sameslice":
+			a, b := se.rval(se.eval(n.Args[0])).(*SliceV), se.rval(se.eval(n.Args[1])).(*SliceV)
+			return specVal{V: And(Eq(a.Arr, b.Arr), Eq(a.Off, b.Off), Eq(a.Len, b.Len)), T: boolT}
+		case "isfresh":
+			// the object/channel/map was allocated during this call (not reachable before it)
+			a := se.eval(n.Args[0])
+			var t Term
+			switch v := se.rval(a).(type) {
+			case *PtrV:
+				t = se.x.ptrTerm(v)
+			case Term:
+				t = v
+			default:
+				se.fail("isfresh of %s", exprString(n.Args[0]))
+			}
+			w0 := Term{"W@0", SInt}
+			if se.old != nil && se.old != se.x.entry {
+				w0 = se.old.W
+			}
+			return specVal{V: Gt(t, w0), T: boolT}
 		case "ptrnonnil":
 			// an interface value that is non-nil and does not hold a typed nil pointer
 			a := se.eval(n.Args[0])
